@@ -1,0 +1,6 @@
+//go:build !verif
+
+package postscript
+
+// verifStep is a no-op unless the library is built with the "verif" tag.
+func (intp *Interpreter) verifStep() {}
